@@ -362,6 +362,10 @@ func Update(t *rapid.T, f *gen.Func, state []reflect.Value, shape string, o gen.
 	default:
 		panic("listgen: unknown shape " + shape)
 	}
+	if u.Partial && u.Delete {
+		// the order of the two filter elements in a message carries no meaning
+		u.PartialFirst = rapid.Bool().Draw(t, label+".partialFilterFirst")
+	}
 	return u
 }
 
@@ -400,6 +404,9 @@ func Cmd(f *gen.Func, u refmodel.Update) model.CmdType {
 		}
 		if p != nil {
 			cmd.Filter = append(cmd.Filter, *p)
+		}
+		if u.PartialFirst && len(cmd.Filter) == 2 {
+			cmd.Filter[0], cmd.Filter[1] = cmd.Filter[1], cmd.Filter[0]
 		}
 	}
 	return cmd
